@@ -68,7 +68,7 @@ pub fn gen_history(pid: &str, rng: &mut Rng, uni: &Universe, persistent: bool, s
     // most histories start with some documents in place
     for (i, d) in uni.docs.iter().enumerate() {
         if rng.chance(3, 4) {
-            let write = (pid != "C07" && pid != "C15") || rng.chance(1, 2);
+            let write = (pid != "C07" && pid != "C15" && pid != "C17") || rng.chance(1, 2);
             h.push(SOp::Import { ns: d.0, secret: if write { Some(d.1) } else { None } });
             let _ = i;
         }
